@@ -218,7 +218,10 @@ def worker_main(argv):
                                       "attribution": extra}) + "\n")
                 out.flush()
                 if os.environ.get("VERIF_STOP_ON_FIRST"):
-                    break
+                    from sim import known as K
+
+                    if K.match(load_known(), prop, {"sig": mv["sig"], "attribution": extra}) is None:
+                        break
         out.write(json.dumps({"type": "aggregate", "n_done": n_done, "agg": mod.finish_aggregate(agg)}) + "\n")
     except Exception:
         out.write(json.dumps({"type": "harness_error", "what": "worker exception", "tb": traceback.format_exc()}) + "\n")
@@ -466,7 +469,7 @@ def check_main(prop: str, tier: str, runs_override=None) -> int:
     if timed_out:
         print("HARNESS-ERROR: wall-clock cap reached (exit 3)", flush=True)
         return 3
-    if n_done < max(1, n_runs // 4):
+    if n_done < max(1, n_runs // 4) and not os.environ.get("VERIF_STOP_ON_FIRST"):
         print(f"HARNESS-ERROR: only {n_done} of {n_runs} planned runs completed before the soft deadline", flush=True)
         return 3
     return 0
